@@ -74,6 +74,33 @@ def opMedian : List V → Option V
       some (ofOpt ofRat (median xs))
   | _ => none
 
+/-- `predictdf <chunk> [<has decision_function> ...] <thr> [[fold raw target] ...]` → model of
+`_predict` with the per-model gate of brew.py:461-470 (one flag per fold model) -/
+def opPredictDF : List V → Option V
+  | [c, dfs, t, rows] => do
+      let c ← toNat? c
+      let dfs ← toList? toBool? dfs
+      let thr ← toRat? t
+      let rows ← toList? toFRow? rows
+      some (ofCalRes (predictFoldsDF c dfs thr rows))
+  | _ => none
+
+def ofCollsRes : Except CalErr (List (List XR)) → V
+  | Except.ok vs => ofList (ofList ofXR) vs
+  | Except.error e => ofCalErr e
+
+/-- `predictcolls <chunk> [flags] <thr> [[[fold raw target] ...] ...]` → model of
+`list(_predict(...))` over several collections: one score list per collection, or the error of
+the first collection that cannot be scored -/
+def opPredictColls : List V → Option V
+  | [c, dfs, t, colls] => do
+      let c ← toNat? c
+      let dfs ← toList? toBool? dfs
+      let thr ← toRat? t
+      let colls ← toList? (toList? toFRow?) colls
+      some (ofCollsRes (predictColls c dfs thr colls))
+  | _ => none
+
 end Mk.Ops.Calibrate
 
 namespace Mk.Ops
@@ -81,6 +108,6 @@ open Mk V Mk.Ops.Calibrate
 
 def calibrateOps : List (String × (List V → Option V)) :=
   [("calib", opCalib), ("calspec", opCalSpec), ("predict", opPredict), ("predspec", opPredSpec),
-   ("median", opMedian)]
+   ("median", opMedian), ("predictdf", opPredictDF), ("predictcolls", opPredictColls)]
 
 end Mk.Ops
